@@ -507,8 +507,14 @@ with dispose_children (f : nat) (id : nat) (s : state) {struct f} : res unit :=
           do _, s2 <- run_cleanups f' (n_cleanups nd) (set_tracker None s1);
           let s3 := set_tracker prevt s2 in
           do _, s4 <- dispose_list f' (n_children nd) s3;
-          if alive id s4 then Ok tt (upd id (nd_context []) s4)
-          else if fx then Ok tt s4 else Err (Runtime 11) s4
+          match nodes s4 !! id with
+          | Some nd' =>
+              (* fix of F20: cleanups may have created nodes / registered cleanups in this very scope: go round again *)
+              if fx && negb (match n_cleanups nd', n_children nd' with [], [] => true | _, _ => false end)
+              then dispose_children f' id s4
+              else Ok tt (upd id (nd_context []) s4)
+          | None => if fx then Ok tt s4 else Err (Runtime 11) s4
+          end
       end
   end
 
@@ -816,8 +822,14 @@ Lemma dispose_children_S (f' : nat) (id : nat) (s : state) :
           do _, s2 <- run_cleanups f' (n_cleanups nd) (set_tracker None s1);
           let s3 := set_tracker prevt s2 in
           do _, s4 <- dispose_list f' (n_children nd) s3;
-          if alive id s4 then Ok tt (upd id (nd_context []) s4)
-          else if fx then Ok tt s4 else Err (Runtime 11) s4
+          match nodes s4 !! id with
+          | Some nd' =>
+              (* fix of F20: cleanups may have created nodes / registered cleanups in this very scope: go round again *)
+              if fx && negb (match n_cleanups nd', n_children nd' with [], [] => true | _, _ => false end)
+              then dispose_children f' id s4
+              else Ok tt (upd id (nd_context []) s4)
+          | None => if fx then Ok tt s4 else Err (Runtime 11) s4
+          end
       end.
 Proof. reflexivity. Qed.
 
